@@ -66,12 +66,49 @@ fn mp_real(boundary: &[u8], body: &[u8]) -> Option<(String, &'static str, &'stat
     })
 }
 
+type Job = Box<dyn FnOnce() + Send + 'static>;
+
+/// `f` on the watchdog worker thread: `Some(Ok(v))`, `Some(Err(()))` = it panicked, `None` = no result
+/// within 5 s. One long-lived worker serves all calls (a thread per call doubled the run time); a
+/// worker that hangs is abandoned and replaced.
+pub fn with_deadline<T: Send + 'static>(f: impl FnOnce() -> T + Send + 'static) -> Option<Result<T, ()>> {
+    use std::sync::{mpsc, Mutex};
+    static WORKER: Mutex<Option<mpsc::Sender<Job>>> = Mutex::new(None);
+    let (rtx, rrx) = mpsc::channel();
+    let job: Job = Box::new(move || {
+        let _ = rtx.send(h_util::guarded(f));
+    });
+    let mut w = WORKER.lock().unwrap();
+    if w.is_none() {
+        let (tx, rx) = mpsc::channel::<Job>();
+        std::thread::Builder::new()
+            .stack_size(16 << 20)
+            .spawn(move || {
+                for job in rx {
+                    job();
+                }
+            })
+            .expect("spawn");
+        *w = Some(tx);
+    }
+    w.as_ref().unwrap().send(job).expect("worker alive");
+    match rrx.recv_timeout(std::time::Duration::from_secs(5)) {
+        Ok(r) => Some(r),
+        Err(_) => {
+            *w = None;
+            None
+        }
+    }
+}
+
 fn mp_req(boundary: &[u8], body: &[u8], cls: &str) -> Option<Req> {
-    // the external verdicts are recorded from the real run (a panic leaves them at their defaults)
-    let (j, e) = match h_util::guarded(|| mp_real(boundary, body)) {
-        Ok(Some((_, j, e))) => (j, e),
-        Ok(None) => return None,
-        Err(()) => ("t", "file"),
+    // the external verdicts are recorded from the real run (a panic or a hang leaves them at their
+    // defaults; the request is generated all the same and fails when it is run)
+    let (b2, body2) = (boundary.to_vec(), body.to_vec());
+    let (j, e) = match with_deadline(move || mp_real(&b2, &body2)) {
+        Some(Ok(Some((_, j, e)))) => (j, e),
+        Some(Ok(None)) => return None,
+        Some(Err(())) | None => ("t", "file"),
     };
     Some(Req::new(format!("c17.mp {} {} {j} {e}", hx(boundary), hx(body)), cls))
 }
@@ -166,6 +203,10 @@ fn str_op(h: &str, f: impl FnOnce(&str) -> Outcome) -> Outcome {
         Some(s) => f(&s),
         None => Outcome::bad(),
     }
+}
+
+pub fn is_scan_op(op: &str) -> bool {
+    matches!(op, "c17.mp" | "c17.cmsk" | "c17.lang" | "c17.tag" | "c17.word" | "c17.plain")
 }
 
 pub fn run(toks: &[&str]) -> Option<Outcome> {
